@@ -85,6 +85,9 @@ class CDSInterval(AbstractFeatureInterval):
         else:
             self.frames = [x.to_frame() for x in frames_or_phases]
 
+        if any(frame is CDSFrame.NONE for frame in self.frames):
+            raise MismatchedFrameException("Every block of a CDS needs a frame or phase of 0, 1 or 2, not NONE")
+
         if guid is None:
             self.guid = digest_object(
                 self._genomic_starts,
